@@ -36,6 +36,12 @@ Proof. intros d it. split; [apply add_hist_head|]. split; [apply add_hist_parts|
 Theorem C08_every_change_guarded : forall nw fuel uops a w, R MFull nw w (exec_fact fuel uops a w nw).
 Proof. intros. apply R_exec_fact. reflexivity. Qed.
 
+(** a sink's collected list only grows at the end: it is in arrival order *)
+Theorem C08_collected_in_arrival_order : forall nw fuel uops a w d x,
+  aget d (f_devs w) = Some x ->
+  exists x', aget d (f_devs (exec_fact fuel uops a w nw)) = Some x' /\ exists l, collected_ids x' = collected_ids x ++ l.
+Proof. exact exec_collected. Qed.
+
 Print Assumptions C08_only_configured_neighbours.
 Print Assumptions C08_longest_idle_first.
 Print Assumptions C08_gate_refuses.
@@ -43,6 +49,7 @@ Print Assumptions C08_blocked_input_refuses.
 Print Assumptions C08_history_extended_by_device.
 Print Assumptions C08_every_change_guarded.
 
+Print Assumptions C08_collected_in_arrival_order.
 Example C08_nonvacuous :
   decide (DQualityGe 8) (ISingle (mkPart 1 0 4 [] [])) = false /\ decide (DQualityLt 8) (ISingle (mkPart 1 0 4 [] [])) = true /\
   p_hist (item_head (item_add_hist 7 (ISingle (mkPart 1 0 4 [3] [])))) = [3; 7].
